@@ -21,7 +21,7 @@ const (
 
 // C20: unlikely-content pruning applies only if enough content remains, else fallback.
 func C20(p *core.Program, r *core.Report) {
-	r.Explanation = "F6: in the element visitor every call of the document builder for an element node is reachable only through the test of the SkipUnlikelies flag (must-pass-through), so no element is emitted ahead of the unlikely tests. F1: decision-list conformance of ContentExtractor.ExtractContent: the first pass converts with SkipUnlikelies; iff its word count is <= 499 the document AND the word count both come from a second pass with Default, otherwise both come from the first pass (phis resolved per path). F2: each pass builds a new WebDocumentBuilder and DomConverter and Convert walks a deep clone of the untouched document element. F3: in the converter's element visitor every `return false` that depends on the SkipUnlikelies flag is guarded either by the role table or by the complete class/id test (unlikely pattern, not the ok-maybe pattern, not below a table, not body, not a); the patterns and the role table are read nowhere else in the module."
+	r.Explanation = "F7: no call of the document builder in the element visitor is reachable only with SkipUnlikelies set, so a pruned element leaves no trace (no block break) and the page reads as if the subtree was deleted. F6: in the element visitor every call of the document builder for an element node is reachable only through the test of the SkipUnlikelies flag (must-pass-through), so no element is emitted ahead of the unlikely tests. F1: decision-list conformance of ContentExtractor.ExtractContent: the first pass converts with SkipUnlikelies; iff its word count is <= 499 the document AND the word count both come from a second pass with Default, otherwise both come from the first pass (phis resolved per path). F2: each pass builds a new WebDocumentBuilder and DomConverter and Convert walks a deep clone of the untouched document element. F3: in the converter's element visitor every `return false` that depends on the SkipUnlikelies flag is guarded either by the role table or by the complete class/id test (unlikely pattern, not the ok-maybe pattern, not below a table, not body, not a); the patterns and the role table are read nowhere else in the module."
 	r.NotCovered = "the metamorphic equalities themselves (result equals that of the page with the subtrees deleted / markers renamed); what the regular expressions match; marked elements swallowed whole by figure/table extraction."
 
 	// ---- F1
@@ -184,7 +184,7 @@ func C20(p *core.Program, r *core.Report) {
 			// element nodes only: text nodes are handed over on the other side of the node-type test
 			cutText, _ := core.CutAtoms(p, ve, regexp.MustCompile(q(`$1.Type == html.TextNode`)), true)
 			n, bad := 0, 0
-			var wit []string
+			var wit, traces []string
 			for _, in := range instrsOf(ve) {
 				call, ok := in.(*ssa.Call)
 				if !ok || !call.Call.IsInvoke() {
@@ -197,6 +197,9 @@ func C20(p *core.Program, r *core.Report) {
 					continue
 				}
 				n++
+				if !core.InstrReachable(ve, cutFlagSet, in) {
+					traces = append(traces, fmt.Sprintf("%s at %s", call.Call.Method.Name(), p.Pos(in.Pos())))
+				}
 				if ok2, _ := core.MustPassThrough(ve, in, func(x ssa.Instruction) bool { return flagIf[x] }, cutText); !ok2 {
 					bad++
 					if len(wit) < 3 {
@@ -206,6 +209,11 @@ func C20(p *core.Program, r *core.Report) {
 			}
 			r.Add("F6", "an element reaches the builder only after the SkipUnlikelies flag was tested", p.Pos(ve.Pos()), n >= 5 && bad == 0 && len(flagIf) >= 1,
 				fmt.Sprintf("%d builder calls for element nodes, %d reachable without passing the flag test", n, bad), wit...)
+			// F7: "identical to the page with those subtrees deleted": a pruned element tells the
+			// builder nothing (no block break, no skipped node) - every builder call of the visitor
+			// is also reachable with the flag clear, none sits on the pruning side only
+			r.Add("F7", "a pruned element leaves no trace in the document builder", p.Pos(ve.Pos()), n >= 5 && len(traces) == 0,
+				fmt.Sprintf("%d builder calls for element nodes, %d only reachable when SkipUnlikelies is set", n, len(traces)), traces...)
 		}
 		// readers of the patterns / role table
 		for _, g := range []struct{ name, content string }{{"the unlikely-candidates pattern", rxUnlikely}, {"the ok-maybe pattern", rxOkMaybe}, {"the unlikely-roles table", unlikelyRoleSet}} {
@@ -235,6 +243,7 @@ func C20(p *core.Program, r *core.Report) {
 		} else {
 			cn := core.NewCanon(p)
 			reClassID := regexp.MustCompile(`dom\.(ClassName|ID)\(|dom\.GetAttribute\([^()]*,"(class|id)"\)`)
+			reRoleAttr := regexp.MustCompile(`dom\.GetAttribute\([^()]*(\([^()]*\))?[^()]*,"role"\)`)
 			seenF5 := map[string]bool{}
 			nTests := 0
 			// units: a test inside a helper that is handed the class/id as a parameter is seen in
@@ -279,6 +288,20 @@ func C20(p *core.Program, r *core.Report) {
 						}
 						for _, pair := range [][2]ssa.Value{{x.X, x.Y}, {x.Y, x.X}} {
 							s, isC := core.ConstString(pair[1])
+							if isC && s != "" && reRoleAttr.MatchString(cn.Of(pair[0])) {
+								// the same for the ARIA role: a role of the unlikely-role table steers nothing else
+								nTests++
+								isUnlikelyRole := false
+								for _, k := range tableKeys(unlikelyRoleSet) {
+									isUnlikelyRole = isUnlikelyRole || k == s
+								}
+								key := fmt.Sprintf("role compared with %q in package %s", s, pp[strings.LastIndex(pp, "/")+1:])
+								if !seenF5[key] {
+									seenF5[key] = true
+									r.Add("F5", key, p.Pos(x.Pos()), !isUnlikelyRole, "a role of the unlikely-role table is also tested here")
+								}
+								continue
+							}
 							if !isC || s == "" || !reClassID.MatchString(cn.Of(pair[0])) {
 								continue
 							}
